@@ -65,7 +65,7 @@ class PathView:
             for lit in self.s.edge_literals(a, b):
                 i = self.pos[a]
                 sub = PathView(self.prog, self.body, self.path[:i + 1], self.keep_headers)
-                lit2 = (lit[0], self.prog.simp(sub.resolve(lit[1]), self.body), lit[2])
+                lit2 = (lit[0], self.prog.simp(sub.resolve(lit[1]), self.body), lit[2]) + tuple(lit[3:])
                 out.extend(lit_to_facts(lit2))
         return out
 
